@@ -585,7 +585,16 @@ pub fn outline_entry(
             // definition  forall X.. (aux(X..) <-> F)
             let (p, n) = if rng.chance(fresh_pct) { *rng.pick(fresh) } else { *rng.pick(tempting) };
             let pool = ["X", "Y", "Z"];
-            let mut vs: Vec<fol::Variable> = (0..n).map(|i| fol::Variable { name: pool[i % 3].to_string(), sort: fol::Sort::General }).collect();
+            // 30 % of the definitions bind integer / symbol sorted variables (the head's arguments are then
+            // `X$i` / `X$s` terms: the TryFrom<GeneralTerm> arms for IntegerTerm::Variable and
+            // SymbolicTerm::Variable of outline/mod.rs on the ACCEPTING side; audit 2, B16)
+            let sorted = rng.chance(30);
+            let mut vs: Vec<fol::Variable> = (0..n)
+                .map(|i| fol::Variable {
+                    name: pool[i % 3].to_string(),
+                    sort: if sorted { *rng.pick(&[fol::Sort::Integer, fol::Sort::Symbol, fol::Sort::General, fol::Sort::Integer]) } else { fol::Sort::General },
+                })
+                .collect();
             let bvars: Vec<(&str, fol::Sort)> = vs.iter().map(|v| (pool[pool.iter().position(|x| *x == v.name).unwrap()], v.sort)).collect();
             let bvars2: Vec<(&str, fol::Sort)> = if bvars.is_empty() { vec![("X", fol::Sort::General)] } else { bvars };
             let rhs_preds: Vec<(&str, usize)> = if rng.chance(90) { preds.clone() } else { let mut q = preds.clone(); q.push((p, n)); q.extend(fresh.iter().cloned()); q };
